@@ -314,14 +314,14 @@ def agree_ref(ctx, fi, ref_src, title, what=('return', 'heap', 'substores'), rul
             # ref_attrs_only: the reference lists the attributes the statement talks about; private bookkeeping
             # attributes the code keeps in addition are not a disagreement
             return [e for e in II.events if e.kind == 'store' and e.data.get('target') == 'attr'
-                    and (o is None or e.func.short == o) and (not ref_attrs_only or e.data['name'] in ref_names)]
+                    and (o is None or e.owner == o) and (not ref_attrs_only or e.data['name'] in ref_names)]
         _match_groups(ctx, rule, title, fi, 'attribute update', sel(I, own), sel(IR, None),
                       lambda e: [('object', e.data['base']), ('attribute', lift(e.data['name'])), ('value', e.data['value']),
                                  ('guard', e.cond())], txt)
     if 'loopstores' in what:
         def sell(II, o):
             return [e for e in II.events if e.kind == 'store' and e.data.get('target') == 'name' and e.loops
-                    and (o is None or e.func.short == o)
+                    and (o is None or e.owner == o)
                     and any(e.data['name'] in l.get('carried', ()) for l in e.loops)]
         _match_groups(ctx, rule, title, fi, 'loop-carried update', sell(I, own), sell(IR, None),
                       lambda e: [('value', e.data['value'])], txt)
@@ -335,7 +335,7 @@ def agree_ref(ctx, fi, ref_src, title, what=('return', 'heap', 'substores'), rul
                       lambda e: e.text()[:60])
     if 'calls' in what:
         def selc(II, o):
-            return [e for e in II.events if e.kind == 'call' and (o is None or e.func.short == o)
+            return [e for e in II.events if e.kind == 'call' and (o is None or e.owner == o)
                     and (e.data.get('resolved') is not None or 'candidates' in e.data) and not e.data.get('inlined')]
 
         def packed(e):
@@ -832,3 +832,34 @@ def record_block_requests(ctx, rec, Ir, rule='FORMULA'):
                          'self.num_blocks % self.blocks_per_file, self.blocks_per_file)', env={'FI': fl['index'], 'NF': nf}, I=J2)
     ctx.formula(rule, 'blocks requested for file i == remainder in the last file, else blocks_per_file (num_blocks in total)', rec,
                 bl['trip'], spec, node=bl['node'], construct='block loop trip count')
+
+
+# --------------------------------------------------------------------------- functions and the helpers extracted from them
+def new_helpers_of(ctx, fi, _seen=None):
+    """FuncInfos that are not in the baseline list and are reached from `fi` through resolved calls that pass only through
+    such new functions: the pieces a refactoring extracted from fi (transitively)."""
+    from vstatic.baseline import BASELINE_FUNCS
+    from vstatic.argbind import resolve_callee
+    seen = _seen if _seen is not None else {}
+    for n in ast.walk(fi.node):
+        if isinstance(n, ast.Call):
+            rc = resolve_callee(ctx.prog, fi, n)
+            if rc is None:
+                continue
+            callee = rc[0]
+            if callee.short in BASELINE_FUNCS or callee.qual in seen or callee is fi:
+                continue
+            seen[callee.qual] = callee
+            new_helpers_of(ctx, callee, seen)
+    # nested closures defined in new helpers are part of them already (same node)
+    return list(seen.values())
+
+
+def family_nodes(ctx, fi):
+    """AST nodes of fi and of every helper extracted from it"""
+    return [fi.node] + [h.node for h in new_helpers_of(ctx, fi)]
+
+
+def family_walk(ctx, fi):
+    for node in family_nodes(ctx, fi):
+        yield from ast.walk(node)
